@@ -9,8 +9,11 @@ import Acra.Drv.Golay7
 import Acra.Drv.Ch11
 import Acra.Drv.Extra
 import Acra.Drv.AFDX
+import Acra.Drv.Foreign
 namespace Acra.Drv
+/- `Foreign.foreignCodecs` comes first: the same codecs with the operand-aware `eqOp` attached (first match wins) -/
 def allCodecs : List Codec := List.flatten [
+  Foreign.foreignCodecs,
   ftiCodecs,
   fti2Codecs,
   Mpeg.mpegCodecs,
